@@ -397,6 +397,17 @@ func runInBubble(sc *Scenario, out *RunOut, trace bool) {
 
 	run(e)
 
+	if sc.Prop == "C16" {
+		for _, rep := range s.RaceReports() {
+			rule := "C16.R1"
+			if rep.Map {
+				rule = "C16.R2"
+			}
+
+			out.violate(rule, rep.Key(), "%s: the two accesses are not ordered by any synchronisation the library performs (mutex, sync.Map, atomic, channel, goroutine start)", rep.String())
+		}
+	}
+
 	out.Steps = s.Steps
 	out.SimNs = s.NowNs()
 	out.SchedSig = s.SchedSig
